@@ -8,6 +8,7 @@ import (
 	"time"
 
 	"github.com/maypok86/otter/v2"
+	"github.com/maypok86/otter/v2/stats"
 
 	"otterverif/internal/core"
 )
@@ -68,6 +69,11 @@ func runC03(cfg c03Cfg) (violation string, exposuresChecked, expiredUnsweptOps i
 
 // runC03Events is runC03 plus the deletion-event oracle used by C06 (expiry under concurrency).
 func runC03Events(cfg c03Cfg) (violation, eventViolation string, exposuresChecked, expiredUnsweptOps int64) {
+	v, ev, _, a, b := runC03All(cfg)
+	return v, ev, a, b
+}
+
+func runC03All(cfg c03Cfg) (violation, eventViolation, statsViolation string, exposuresChecked, expiredUnsweptOps int64) {
 	clk := &phaseClock{tick: make(chan time.Time)}
 	clk.now.Store(1_000_000_000)
 	var wg sync.WaitGroup
@@ -81,7 +87,9 @@ func runC03Events(cfg c03Cfg) (violation, eventViolation string, exposuresChecke
 			emu.Unlock()
 		}
 	}
+	counter := stats.NewCounter()
 	o := &otter.Options[int, int]{
+		StatsRecorder:    counter,
 		OnAtomicDeletion: rec(true),
 		OnDeletion:       rec(false),
 		Clock:            clk,
@@ -106,7 +114,7 @@ func runC03Events(cfg c03Cfg) (violation, eventViolation string, exposuresChecke
 	}
 	c, err := otter.New(o)
 	if err != nil {
-		return "", "", 0, 0
+		return "", "", "", 0, 0
 	}
 	defer c.StopAllGoroutines()
 	otter.VerifSetHook(compHook(cfg.Seed, cfg.DelayPerM))
@@ -314,6 +322,22 @@ func runC03Events(cfg c03Cfg) (violation, eventViolation string, exposuresChecke
 			eventViolation = fmt.Sprintf("%d values were reported to OnDeletion but %d to OnAtomicDeletion", len(delSeen), len(atomicSeen))
 		}
 		if eventViolation == "" {
+			// statistics with expiration: every Overflow removal is counted, nothing but Overflow and
+			// Expiration removals is counted
+			var overflow, expiration uint64
+			for _, a := range atomicSeen {
+				switch a.cause {
+				case otter.CauseOverflow:
+					overflow++
+				case otter.CauseExpiration:
+					expiration++
+				}
+			}
+			if st := counter.Snapshot(); st.Evictions < overflow || st.Evictions > overflow+expiration {
+				statsViolation = fmt.Sprintf("evictions = %d but %d Overflow and %d Expiration removals were reported (expected between %d and %d)", st.Evictions, overflow, expiration, overflow, overflow+expiration)
+			}
+		}
+		if eventViolation == "" {
 			if n := c.EstimatedSize(); n != 0 {
 				eventViolation = fmt.Sprintf("after every deadline passed and two CleanUps %d entries are still counted", n)
 			}
@@ -335,11 +359,20 @@ func runC03Events(cfg c03Cfg) (violation, eventViolation string, exposuresChecke
 			})
 		}
 	}
-	return violation, eventViolation, checked.Load(), onExpired.Load()
+	return violation, eventViolation, statsViolation, checked.Load(), onExpired.Load()
 }
 
 // RunC06Expiry runs the phased trials for their deletion events (C06 with expiry under concurrency).
 func RunC06Expiry(col *core.Collector, tier, variant string, seed uint64, shard, nshards int, replayDir string) {
+	runExpiryEvents(col, "C06", false, tier, variant, seed, shard, nshards, replayDir)
+}
+
+// RunC20Expiry runs the same trials for the eviction counter (C20 with expiration under concurrency).
+func RunC20Expiry(col *core.Collector, tier, variant string, seed uint64, shard, nshards int, replayDir string) {
+	runExpiryEvents(col, "C20", true, tier, variant, seed, shard, nshards, replayDir)
+}
+
+func runExpiryEvents(col *core.Collector, prop string, statsOnly bool, tier, variant string, seed uint64, shard, nshards int, replayDir string) {
 	n := 400
 	if tier == "thorough" {
 		n = 12000
@@ -348,20 +381,23 @@ func RunC06Expiry(col *core.Collector, tier, variant string, seed uint64, shard,
 		n /= 3
 	}
 	for i := shard; i < n; i += nshards {
-		r := core.NewRng(core.Derive(seed, core.StrLabel("C06expiry"), core.StrLabel(variant), uint64(i)))
+		r := core.NewRng(core.Derive(seed, core.StrLabel(prop+"expiry"), core.StrLabel(variant), uint64(i)))
 		cfg := c03Cfg{Seed: r.U64(), Index: i, G: 2 + r.Intn(6), Keys: 1 + r.Intn(6), Phases: 4 + r.Intn(12), Ops: 10 + r.Intn(40),
 			DelayPerM: []int{0, 50, 200}[r.Intn(3)], Exec: r.Intn(2)}
 		if r.Chance(1, 2) {
 			cfg.Max = 1 + r.Intn(6)
 		}
-		_, ev, checked, _ := runC03Events(cfg)
+		_, ev, sv, checked, _ := runC03All(cfg)
+		if statsOnly {
+			ev = sv
+		}
 		col.Eval(1)
 		col.Count("c06.expiry_trials", 1)
 		col.Count("c06.expiry_exposures", checked)
 		col.NonTrivial(core.HashJSON(cfg))
 		if ev != "" {
-			path := writeReplay(replayDir, fmt.Sprintf("C06-expiry-%x.json", core.HashJSON(cfg)), map[string]any{"engine": "c06-expiry", "trial": cfg, "violation": ev})
-			col.Violation(core.Violation{Property: "C06", Signature: "c06-expiry:" + sigText(ev), Detail: ev + fmt.Sprintf(" (trial %+v)", cfg), Replay: path})
+			path := writeReplay(replayDir, fmt.Sprintf("%s-expiry-%x.json", prop, core.HashJSON(cfg)), map[string]any{"engine": "expiry-events", "trial": cfg, "violation": ev})
+			col.Violation(core.Violation{Property: prop, Signature: "expiry-events:" + sigText(ev), Detail: ev + fmt.Sprintf(" (trial %+v)", cfg), Replay: path})
 			if col.NumViolations() >= 5 {
 				break
 			}
